@@ -75,6 +75,7 @@ retry:
              * Split propagates upward. It have to start from root.
              */
             special_status = status::WARN_CONCURRENT_OPERATIONS;
+            YAKUSHIMA_VERIF_HOOK(YAKUSHIMA_VERIF_RETRY, nullptr);
             goto retry; // NOLINT
         }
         n = n_child;
